@@ -29,7 +29,7 @@ fn main() {
     let get = |k: &str| args.iter().position(|a| a == k).and_then(|i| args.get(i + 1)).cloned();
     let mode = args.get(1).cloned().unwrap_or_default();
     // panics of the code under test are observed through catch_unwind / thread exit; keep stderr quiet
-    std::panic::set_hook(Box::new(|_| {}));
+    if std::env::var("VERIF_SHOW_PANICS").is_err() { std::panic::set_hook(Box::new(|_| {})); }
     match mode.as_str() {
         "run" => {
             let arm = get("--arm").expect("--arm");
